@@ -28,9 +28,13 @@ Pats == <<
   [neg |-> FALSE, anch |-> TRUE,  dir |-> FALSE, segs |-> <<"*", "a.md">>], \* 22 */a.md (one level, not any)
   [neg |-> TRUE,  anch |-> FALSE, dir |-> FALSE, segs |-> <<"*.md">>],      \* 23 !*.md
   [neg |-> FALSE, anch |-> TRUE,  dir |-> TRUE,  segs |-> <<"**", "e">>],   \* 24 **/e/
-  [neg |-> TRUE,  anch |-> TRUE,  dir |-> TRUE,  segs |-> <<"d", "e">>]     \* 25 !d/e/
+  [neg |-> TRUE,  anch |-> TRUE,  dir |-> TRUE,  segs |-> <<"d", "e">>],    \* 25 !d/e/
+  [neg |-> TRUE,  anch |-> FALSE, dir |-> FALSE, segs |-> <<"*">>],         \* 26 !*    (matches every entry itself: files and directories at any depth)
+  [neg |-> FALSE, anch |-> FALSE, dir |-> FALSE, segs |-> <<"*">>],         \* 27 *
+  [neg |-> TRUE,  anch |-> FALSE, dir |-> TRUE,  segs |-> <<"*">>],         \* 28 !*/   (every directory)
+  [neg |-> FALSE, anch |-> FALSE, dir |-> TRUE,  segs |-> <<"*">>]          \* 29 */
 >>
-Text == <<"a.md", "/a.md", "d/a.md", "d/", "e/", "/e/", "*.md", "d/*.md", "**/a.md", "d/**", "?.md", "!a.md", "d/e", "e", "!d/a.md", "d/*", "!/a.md", "!e/", "!d/", "!e", "e/a.md", "*/a.md", "!*.md", "**/e/", "!d/e/">>
+Text == <<"a.md", "/a.md", "d/a.md", "d/", "e/", "/e/", "*.md", "d/*.md", "**/a.md", "d/**", "?.md", "!a.md", "d/e", "e", "!d/a.md", "d/*", "!/a.md", "!e/", "!d/", "!e", "e/a.md", "*/a.md", "!*.md", "**/e/", "!d/e/", "!*", "*", "!*/", "*/">>
 \* universe: files as paths (seq of names), all directories implied
 Files == { <<"a.md">>, <<"b.md">>, <<"d", "a.md">>, <<"d", "b.md">>, <<"d", "e", "a.md">>, <<"d", "e", "b.md">>, <<"e", "a.md">> }
 IgnoreDirs == { <<>>, <<"d">> }            \* directories that may hold a .gitignore
